@@ -162,6 +162,16 @@ def run_case(case):
             except Exception as e:
                 devs.append((f'raised-{type(e).__name__}', f'{label}: {type(e).__name__}: {e}'))
                 continue
+            # the point handed over is the caller's: after a query with an explicit heading it still carries its own azimuth,
+            # and a query without a heading answers as for a fresh point
+            if not refused and explicit and c['given'] and c['h'] != c['th']:
+                try:
+                    after = w.get_ground_speed(time=when, gt_point=pt, altitude=alt, true_airspeed=float(c['tas']))
+                    fresh = w.get_ground_speed(time=when, gt_point=GroundTrack.Point(Location(longitude=lon, latitude=lat), track_az), altitude=alt, true_airspeed=float(c['tas']))
+                    if pt.azimuth != track_az or not abs(after - fresh) <= 1e-9 * max(1.0, abs(fresh)):
+                        devs.append(('argument-modified', f'{label}: after the query with the explicit heading the same point (azimuth now {pt.azimuth}) gives {after!r} without a heading; a fresh point with azimuth {track_az} gives {fresh!r}'))
+                except Exception as e:
+                    devs.append(('argument-modified', f'{label}: second query on the same point raised {type(e).__name__}: {e}'))
             # an altitude that is a whole number of metres may arrive as an int: same value, same answer
             if not refused and c['kind'] == 'field' and with_time:
                 a_int = int(round(alt))
